@@ -24,6 +24,7 @@ type ngapCase struct {
 	Entry string          `json:"entry"` // "PDU/<MessageName>" or "<ContainerType>"
 	Val   json.RawMessage `json:"value"`
 	Ext   int             `json:"ext_outside_root,omitempty"` // values generated above the root of an extensible constraint
+	Dirty int             `json:"dirty_bitstrings,omitempty"` // BIT STRINGs whose unused trailing bits are set
 	live  interface{}
 }
 
@@ -33,6 +34,8 @@ var (
 )
 
 func init() {
+	// the reference encoder follows the structural rules of TS 38.413, not the extension / OPTIONAL flags of the tags
+	refper.SpecRules = true
 	for _, e := range gen.Containers() {
 		containerByName[e.Name] = e
 	}
@@ -111,6 +114,7 @@ func genNgapCase(t *rapid.T, allowFragment bool) ngapCase {
 			c = newNgapCase(e.Name, v.Interface())
 		}
 		c.Ext = g.ExtOutside
+		c.Dirty = g.DirtyBits
 		// fragmentation sweep: retry (with fresh draws) until some string got the target length
 		if !allowFragment || g.Forced() || try >= 7 {
 			return c
